@@ -84,7 +84,7 @@ class OrderLeg(object):
                     "note": draw(st.sampled_from(["", "a", "B", "é", "10", "9"])),
                     "extra": draw(st.sampled_from([[], [], ["x"], ["10"], ["9", "a"]])),
                 })
-            return {"features": feats, "queries": draw(st.lists(query(), min_size=20, max_size=28))}
+            return {"features": feats, "queries": draw(st.lists(query(), min_size=20, max_size=28)), "file_db": draw(st.booleans())}
 
         return case()
 
@@ -139,7 +139,7 @@ class OrderLeg(object):
         for i, f in enumerate(feats):
             attrs = "ID=f%d" % i + (";note=%s" % f["note"] if f["note"] else "")
             lines.append("\t".join(f["cols"] + [attrs] + f["extra"]))
-        db = gffutils.create_db("\n".join(lines) + "\n", ":memory:", from_string=True)
+        db = gffutils.create_db("\n".join(lines) + "\n", ctx.path("q.db") if case.get("file_db") else ":memory:", from_string=True)
         rows = self._rows(case)
         byid = dict((r["id"], r) for r in rows)
         for r_ in db.execute("SELECT id, attributes, extra FROM features"):
